@@ -152,7 +152,10 @@ Definition set_svc v (s : st) := {| now := now s; tseq := tseq s; ntid := ntid s
   tasks := tasks s; runq := runq s; conns := conns s; svc_pending := v |}.
 
 Definition gsess (i : sid) : M sess := fun s => (match alookup i (store s) with Some x => x | None => new_sess end, s, []).
-Definition psess (i : sid) (x : sess) : M unit := modst (fun s => set_store (aset i x (store s)) s).
+(* sessions are created by _handle_connect only; writing to an id that was never issued is a no-op *)
+Definition has_sess (i : sid) : M bool := fun s => (match alookup i (store s) with Some _ => true | None => false end, s, []).
+Definition psess (i : sid) (x : sess) : M unit :=
+  modst (fun s => match alookup i (store s) with Some _ => set_store (aset i x (store s)) s | None => s end).
 Definition upd (i : sid) (f : sess -> sess) : M unit := x <- gsess i ;; psess i (f x).
 Definition gconn (c : cid) : M conn := fun s => (match alookup c (conns s) with Some x => x | None => new_conn end, s, []).
 Definition pconn (c : cid) (x : conn) : M unit := modst (fun s => set_conns (aset c x (conns s)) s).
@@ -229,9 +232,10 @@ Definition alive (t : tid) : M bool := fun s => (match alookup t (tasks s) with 
 (* ---- queue primitives (SimQueue / queue.Queue / asyncio.Queue) ---- *)
 Definition mids_of (l : list qitem) : list N := flat_map (fun i => match i with QP (SMsg m) => [m] | _ => [] end) l.
 
+(* put: ghost - a message entering the queue is recorded as accepted in the same step *)
 Definition q_put (i : sid) (x : qitem) : M unit :=
   ss <- gsess i ;;
-  psess i (w_unfin (S (s_unfin ss)) (w_q (s_q ss ++ [x]) ss)) ;;;
+  psess i (w_accepted (s_accepted ss ++ mids_of [x]) (w_unfin (S (s_unfin ss)) (w_q (s_q ss ++ [x]) ss))) ;;;
   match s_getters ss with
   | [] => ret tt
   | g :: r => upd i (w_getters r) ;;; wake g
@@ -254,16 +258,13 @@ Fixpoint drain (fuel : nat) (i : sid) (acc : list spkt) : M (list spkt) :=
     match s_q ss with
     | [] => ret acc
     | x :: r =>
-      psess i (w_q r ss) ;;; q_task_done i ;;;
+      psess i (w_taken (s_taken ss ++ mids_of [x]) (w_q r ss)) ;;; q_task_done i ;;;
       match x with
       | QNone => q_put i QNone ;;; ret acc
       | QP p => drain f i (acc ++ [p])
       end
     end
   end.
-
-Definition note_taken (i : sid) (l : list spkt) : M unit :=
-  upd i (fun ss => w_taken (s_taken ss ++ mids_of (map QP l)) ss).
 
 (* ---- Socket.close / send / check_ping_timeout ---- *)
 Section WithConfig.
@@ -273,18 +274,22 @@ Let T := c_timeout cfg.
 
 Definition expired (ss : sess) (t : Z) : bool := match s_lastp ss with Some p => Z.gtb (t - p) T | None => false end.
 
+(* the first half of close(): mark the session as closing and run the disconnect handler *)
+Definition begin_close (i : sid) (r : reason) : M unit :=
+  upd i (w_closing true) ;;; emit (OEvent i (EDisconnect r)).
+
 (* close(wait=False ...); the caller handles `wait` *)
 Definition close_nowait (i : sid) (abort : bool) (r : reason) : M bool :=      (* true = this call did the closing *)
+  h <- has_sess i ;;
   ss <- gsess i ;;
-  if s_closed ss || s_closing ss then ret false
+  if negb h || s_closed ss || s_closing ss then ret false
   else
-    upd i (w_closing true) ;;;
-    emit (OEvent i (EDisconnect r)) ;;;
+    begin_close i r ;;;
     st0 <- getst ;;
     (if abort then ret tt
      else if expired ss (now st0) then ret tt       (* the nested send(CLOSE) re-runs the liveness test and gives up *)
      else q_put i (QP SClose)) ;;;
-    upd i (w_closed true) ;;;
+    upd i (fun x => w_closed true (w_closing true x)) ;;;
     (if q_sentinel (c_quirks cfg) then q_put i QNone else ret tt) ;;;
     ret true.
 
@@ -297,7 +302,6 @@ Definition sock_send (i : sid) (p : spkt) : M sres :=
     st0 <- getst ;;
     if expired ss (now st0) then (close_nowait i false RPingTimeout ;;; ret SDropped)
     else
-      (match p with SMsg m => upd i (fun x => w_accepted (s_accepted x ++ [m]) x) | _ => ret tt end) ;;;
       q_put i (QP p) ;;; ret SSent.
 
 (* BaseServer._get_socket: None = KeyError; a closed entry is reaped *)
@@ -376,11 +380,11 @@ Definition poll_attempt (me : tid) (tout : bool) (i : sid) (k : pollk) (t : time
       modst (fun s => set_tasks (aset me {| t_task := TPoll i k t; t_tout := false |} (tasks s)) s) ;;;
       ret PBlocked
   | x :: r =>
-    upd i (fun y => w_getters (nrem me (s_getters y)) (w_q r y)) ;;;
+    psess i (w_taken (s_taken ss ++ mids_of [x]) (w_getters (nrem me (s_getters ss)) (w_q r ss))) ;;;
     q_task_done i ;;;
     match x with
     | QNone => ret (PGot [])
-    | QP p => l <- drain (S (length r)) i [p] ;; note_taken i l ;;; ret (PGot l)
+    | QP p => l <- drain (S (length r)) i [p] ;; ret (PGot l)
     end
   end.
 Definition poll_start (me : tid) (i : sid) (k : pollk) : M pres :=
@@ -556,13 +560,16 @@ Definition upgrades_ok (tr : transport) : bool :=
 Definition transport_allowed (tr : transport) : bool :=
   match tr with TrPolling => c_polling cfg | TrWebsocket => c_websocket cfg | TrOther => false end.
 
+(* generate_id + Socket(...) + self.sockets[sid] = s *)
+Definition new_session : M sid :=
+  fun s => let i := nsid s in
+           (i, set_table (table s ++ [i]) (set_store (aset i new_sess (store s)) (set_nsid (N.succ i) s)), []).
+
 (* _handle_connect *)
 Definition handle_connect (me : tid) (r : rid) (q : req) : M unit :=
   s0 <- getst ;;
   (if svc_pending s0 then (modst (set_svc false) ;;; spawn TSvcStart ;;; ret tt) else ret tt) ;;;
-  s1 <- getst ;;
-  let i := nsid s1 in
-  modst (fun s => set_table (table s ++ [i]) (set_store (aset i new_sess (store s)) (set_nsid (N.succ i) s))) ;;;
+  i <- new_session ;;
   emit (ONewSession r i) ;;;
   sock_send i SOpen ;;;
   spawn (TPingStart i) ;;;
@@ -597,61 +604,93 @@ Definition tr_eqb (a b : transport) : bool :=
 
 Definition answer (me : tid) (r : rid) (x : resp) : M unit := emit (OResp r x) ;;; finish me.
 
-(* handle_request after the origin gate *)
-Definition handle_request (me : tid) (r : rid) (q : req) : M unit :=
-  if r_origin_refused q then answer me r R400
-  else if negb (transport_allowed (r_transport q)) || (negb (c_websocket cfg) && r_upgrade_ws q) then answer me r R400
-  else if match r_sid q with None => negb (r_eio4 q) | Some _ => false end then answer me r R400
-  else if match r_jsonp q with JBad => true | _ => false end then answer me r R400
-  else
+(* ---- the admission decision of handle_request, as a pure function ---- *)
+(* what the request handler knows about the session a request names, after _get_socket *)
+Record sview := { v_upgrading : bool; v_upgraded : bool }.
+Inductive decision :=
+| DRefuse (x : resp)                 (* answered 400 / 405 at once *)
+| DOptions                           (* 200 OK *)
+| DConnect                           (* a new session *)
+| DUpgrade (i : sid)                 (* hand the request to the WebSocket upgrade of session i *)
+| DNoop (i : sid)                    (* session is upgrading / upgraded: NOOP *)
+| DPoll (i : sid)                    (* long poll *)
+| DPost (i : sid).                   (* process the body *)
+
+(* the checks made before any session is looked up *)
+Definition decide_early (q : req) : option resp :=
+  if r_origin_refused q then Some R400
+  else if negb (transport_allowed (r_transport q)) || (negb (c_websocket cfg) && r_upgrade_ws q) then Some R400
+  else if match r_sid q with None => negb (r_eio4 q) | Some _ => false end then Some R400
+  else if match r_jsonp q with JBad => true | _ => false end then Some R400
+  else match r_method q with MOther => Some R405 | _ => None end.
+
+Definition wants_ws_upgrade (q : req) : bool := r_conn_upgrade q && r_upgrade_ws q.
+
+(* v: the session named by the request, None if the request names none that is addressable *)
+Definition decide (q : req) (v : option sview) : decision :=
+  match decide_early q with
+  | Some x => DRefuse x
+  | None =>
     match r_method q with
+    | MOptions => DOptions
+    | MOther => DRefuse R405
     | MGet =>
       match r_sid q with
       | None =>
         if match r_transport q with TrPolling => true | TrWebsocket => r_upgrade_ws q | TrOther => false end
-        then handle_connect me r q
-        else answer me r R400
-      | Some SUnknown => answer me r R400
+        then DConnect else DRefuse R400
+      | Some SUnknown => DRefuse R400
       | Some (SKnown i) =>
-        it <- in_table i ;;
-        if negb it then answer me r R400
-        else
-          ok <- get_socket i ;;
-          if negb ok then answer me r R400
-          else
-            ss <- gsess i ;;
-            if negb (tr_eqb (transport_of ss) (r_transport q)) &&
-               negb (match r_transport q with TrWebsocket => r_upgrade_ws q | _ => false end)
-            then answer me r R400
-            else if r_conn_upgrade q && r_upgrade_ws q then
-              (* Socket.handle_get_request: an upgrade request *)
-              match r_conn q with Some c => ws_begin me i r c | None => emit OUnsupported end
-            else if s_upgrading ss || s_upgraded ss then
-              emit (OResp r (R200 [SNoop])) ;;; reap_if_closed i ;;; finish me
-            else
-              p <- poll_start me i (PKGet r) ;; finish_get me i r p
+        match v with
+        | None => DRefuse R400
+        | Some w =>
+          if negb (tr_eqb (if v_upgraded w then TrWebsocket else TrPolling) (r_transport q)) &&
+             negb (match r_transport q with TrWebsocket => r_upgrade_ws q | _ => false end)
+          then DRefuse R400
+          else if wants_ws_upgrade q then DUpgrade i
+          else if v_upgrading w || v_upgraded w then DNoop i
+          else DPoll i
+        end
       end
     | MPost =>
       match r_sid q with
-      | None | Some SUnknown => answer me r R400
-      | Some (SKnown i) =>
-        it <- in_table i ;;
-        if negb it then answer me r R400
-        else
-          ok <- get_socket i ;;
-          if negb ok then answer me r R400
-          else
-            match r_body q with
-            | BTooLong => refuse_and_end i ;;; answer me r R400
-            | BUndecodable => answer me r R200ok
-            | BPackets l =>
-              ok2 <- receive_all i l ;;
-              if ok2 then answer me r R200ok else (refuse_and_end i ;;; answer me r R400)
-            end
+      | Some (SKnown i) => match v with Some _ => DPost i | None => DRefuse R400 end
+      | _ => DRefuse R400
       end
-    | MOptions => answer me r R200ok
-    | MOther => answer me r R405
-    end.
+    end
+  end.
+
+(* `sid in self.sockets` then _get_socket(sid): a closed entry is reaped on the way *)
+Definition lookup_view (q : req) : M (option sview) :=
+  match decide_early q, r_sid q with
+  | None, Some (SKnown i) =>
+    it <- in_table i ;;
+    if negb it then ret None
+    else ok <- get_socket i ;;
+         if negb ok then ret None
+         else ss <- gsess i ;; ret (Some {| v_upgrading := s_upgrading ss; v_upgraded := s_upgraded ss |})
+  | _, _ => ret None
+  end.
+
+(* handle_request after the origin gate *)
+Definition handle_request (me : tid) (r : rid) (q : req) : M unit :=
+  v <- lookup_view q ;;
+  match decide q v with
+  | DRefuse x => answer me r x
+  | DOptions => answer me r R200ok
+  | DConnect => handle_connect me r q
+  | DUpgrade i => match r_conn q with Some c => ws_begin me i r c | None => emit OUnsupported end
+  | DNoop i => emit (OResp r (R200 [SNoop])) ;;; reap_if_closed i ;;; finish me
+  | DPoll i => p <- poll_start me i (PKGet r) ;; finish_get me i r p
+  | DPost i =>
+    match r_body q with
+    | BTooLong => refuse_and_end i ;;; answer me r R400
+    | BUndecodable => answer me r R200ok
+    | BPackets l =>
+      ok2 <- receive_all i l ;;
+      if ok2 then answer me r R200ok else (refuse_and_end i ;;; answer me r R400)
+    end
+  end.
 
 (* ---- application API ---- *)
 Inductive api := ApiSend (i : sidref) (m : N) | ApiDisconnect (i : option sidref) | ApiTransport (i : sidref)
